@@ -286,6 +286,10 @@ def _native_check(T, P, ob_name, v, w):
                 return ("ok", fn())
             except Exception as e:
                 return ("exc", type(e).__name__)
+        if opn in ("pow", "lshift"):
+            e = v if refl else w
+            if not (-64 <= e <= 64):
+                return None, None, None  # not replayable natively (astronomically large result)
         exp = safe(lambda: f(w, v) if refl else f(v, w))
         act = safe(lambda: getattr(t, nm)(w))
         return exp != act, exp, act
@@ -326,7 +330,9 @@ def replayer(obd):
         if bad:
             return {"reproduced": True, "input": {"type": tname, "value": cv, "other_operand": cw}, "expected": repr(exp), "actual": repr(act)}
         if bad is None:
-            return {"reproduced": None}
+            continue
+    if first is None or first == (None, None):
+        return {"reproduced": None}
     return {"reproduced": False, "input": {"type": tname, "value": v, "other_operand": w}, "expected": repr(first[0]), "actual": repr(first[1])}
 
 
